@@ -14,6 +14,7 @@ RULE = ('scenario = seeded set of savable values (int64 extremes, integral/tiny/
         'existing good save file fails from call n on, all n) and one run per damaged text (truncation at every byte up to 300 '
         'positions, structural-character replacement, garbage lines) restored with restore_object and restore_variable. '
         'non-trivial = the fault fired or the damaged text was restored; distinct = distinct (scenario, fault kind, position).')
+RULE += (' Later additions: crash points and transient errors with torn writes (three shares of the failing write reach the file); crafted texts on which pre-scan and restore pass diverge (junk behind a number, then an unterminated string), as restore_variable input and as a value in a save file; strings with bytes above 0x7f (Latin-1, UTF-8, cut UTF-8 sequences).')
 COMPONENTS = {'real': ['lib/lpc/object.c save_object/restore_object/save_svalue/restore_svalue', 'lib/lpc/mapping.c', 'lib/lpc/class.c', 'lib/efuns/variable.c', 'lib/efuns/file_utils.c'],
               'stub': ['file layer: real files in a scratch mudlib, every libc file call intercepted (fopencookie streams make every stdio flush visible); crash = disk stops at call n',
                        'kernel sockets/clock/timer (simulated)']}
